@@ -345,4 +345,45 @@ theorem runOps_args (P : Prog) : ∀ (ops : List Op) (s : Sched) (r : Sched × L
         · exact (a2.mono_left _) r' due now fn a hm
         · exact b2 r' due now fn a hm
 
+/-! ### rescheduleEvent moves exactly one entry -/
+
+theorem filter_name_eq_of_nodup : ∀ (l : List Entry), (names l).Nodup → ∀ e ∈ l,
+    l.filter (fun x => decide (x.name = e.name)) = [e]
+  | [], _, _, he => by cases he
+  | x :: xs, hn, e, he => by
+    simp only [names, map_cons, nodup_cons] at hn
+    rcases mem_cons.mp he with he | he
+    · subst he
+      have : xs.filter (fun y => decide (y.name = e.name)) = [] := by
+        apply filter_eq_nil_iff.mpr
+        intro y hy
+        simp only [decide_eq_true_eq]
+        intro h
+        exact hn.1 (by simp only [mem_map]; exact ⟨y, hy, h⟩)
+      simp [filter_cons, this]
+    · have hne : ¬ x.name = e.name := by
+        intro h
+        exact hn.1 (by simp only [mem_map]; exact ⟨e, he, h.symm⟩)
+      simp only [filter_cons, hne, decide_false, Bool.false_eq_true, if_false]
+      exact filter_name_eq_of_nodup xs hn.2 e he
+
+theorem reschedOp_moves (s : Sched) (hi : NameInv s) (e : Entry) (he : e ∈ s.sched) (t : Nat) :
+    (reschedOp s e.name t).2.2 = none ∧
+    (reschedOp s e.name t).2.1 = [Ev.rescheduled e.rid t] ∧
+    (reschedOp s e.name t).1.sched =
+      s.sched.filter (fun x => !(x.name = e.name)) ++ [⟨t, e.name, e.args, e.rid⟩] := by
+  have hkey : e.name ∈ keys s.events := (hi.same _).mp (by simp only [names, mem_map]; exact ⟨e, he, rfl⟩)
+  have hgone := filter_name_eq_of_nodup s.sched hi.schedNodup e he
+  unfold reschedOp removeEvent
+  cases hp : dictPop s.events e.name with
+  | none => exact absurd hkey ((dictPop_none_iff _ _).mp hp)
+  | some fd =>
+    obtain ⟨f, d⟩ := fd
+    have hd := (dictPop_some hp).2
+    have hk : hasKey d e.name = false := by rw [hd]; exact hasKey_filter_self _ _
+    simp only [hgone, getLast?_singleton, dropLast_singleton, map_nil, nil_append]
+    unfold addEvent
+    simp only [hk, Bool.false_eq_true, if_false]
+    exact ⟨trivial, trivial, trivial⟩
+
 end C18
